@@ -29,6 +29,8 @@ enum Fault {
     StaleBefore(usize),
     /// the n-th and (n+1)-th datagram emitted by the peer are swapped (receiver scenarios)
     SwapPeer(usize),
+    /// a delayed copy of the block with true index `block` arrives just before the n-th datagram emitted by the peer (receiver scenarios)
+    InjectOld(usize, u64),
 }
 
 struct Shared {
@@ -212,6 +214,9 @@ fn download(dir: &PathBuf, len: usize, ws: u16, rep: u8, fault: Fault, verdict: 
         Some(p) => p,
         None => {
             verdict.violations.push(("C07", format!("{ctx}: the sender neither completed nor gave up within 60 s")));
+            if label.contains("wrap") {
+                verdict.violations.push(("C15", format!("{ctx}: a download of more than 65535 blocks neither completed nor gave up within 60 s")));
+            }
             return;
         }
     };
@@ -336,6 +341,11 @@ impl SenderPeer {
                     st.out.push_back(stale);
                     st.out.push_back(p);
                 }
+                Fault::InjectOld(k, j) if k == n => {
+                    let old = Self::block(st, j);
+                    st.out.push_back(old);
+                    st.out.push_back(p);
+                }
                 _ => st.out.push_back(p),
             }
         }
@@ -435,6 +445,9 @@ fn upload(dir: &PathBuf, len: usize, ws: u16, rep: u8, fault: Fault, verdict: &m
         Some(p) => p,
         None => {
             verdict.violations.push(("C07", format!("{ctx}: the receiver neither completed nor gave up within 60 s")));
+            if label.contains("wrap") {
+                verdict.violations.push(("C15", format!("{ctx}: an upload of more than 65535 blocks neither completed nor gave up within 60 s")));
+            }
             return;
         }
     };
@@ -478,6 +491,9 @@ fn upload(dir: &PathBuf, len: usize, ws: u16, rep: u8, fault: Fault, verdict: &m
     let stored = std::fs::read(&path).unwrap_or_default();
     if progress != nblocks || stored != data {
         verdict.violations.push(("C04", format!("{ctx}: upload did not complete with identical content (acknowledged {} of {} blocks, {} of {} bytes stored)", progress, nblocks, stored.len(), len)));
+        if label.contains("wrap") {
+            verdict.violations.push(("C15", format!("{ctx}: an upload of more than 65535 blocks did not complete with identical content (acknowledged {} of {} blocks, {} of {} bytes stored)", progress, nblocks, stored.len(), len)));
+        }
     }
 }
 
@@ -763,6 +779,12 @@ fn main() {
         for f in [Fault::None, Fault::DropEmitted(65535), Fault::DropEmitted(65536), Fault::DupReply(16384)] {
             runs += 1;
             download(&dir, len, 4, 1, f.clone(), &mut verdict, "sender-wrap");
+            runs += 1;
+            upload(&dir, len, 4, 1, f, &mut verdict, "receiver-wrap");
+        }
+        // delayed copies of early blocks arriving at the wrap, where block 65536 (wire 0) is expected: block 1 (wire 1), block 2 (wire 2).
+        // (a copy of block 1 arriving exactly where wire 1 is expected again, 65536 blocks later, is indistinguishable by design: not a fault model of C15)
+        for f in [Fault::InjectOld(65536, 1), Fault::InjectOld(65536, 2)] {
             runs += 1;
             upload(&dir, len, 4, 1, f, &mut verdict, "receiver-wrap");
         }
